@@ -79,11 +79,14 @@ Theorem C04_lazy_plus_flush_is_eager : forall ops,
 Proof. exact lazy_plus_flush_is_eager. Qed.
 Print Assumptions C04_lazy_plus_flush_is_eager.
 
-(* on SIGSEGV/SIGABRT the crashing thread's open calls are included *)
+(* on SIGSEGV/SIGABRT the crashing thread's open calls are included: every open RECORDABLE call has its
+   ENTRY (at the depth it was entered with) after the handler's flush - the return stack may contain
+   NORECORD frames anywhere, in particular the innermost frame the handler passes to record_trace_data *)
 Theorem C04_segv_includes_open_calls : forall ops i c,
   wf_ops [] ops = true ->
-  nth_error (final_stack [] ops) i = Some c ->
-  In (entry_rec i c) (concat (snd (ops_run [] ops)) ++ segv_flush (fst (ops_run [] ops))).
+  nth_error (final_stack [] ops) i = Some c -> c_skip c = false ->
+  In (entry_rec (cdepth (firstn i (final_stack [] ops))) c)
+     (concat (snd (ops_run [] ops)) ++ segv_flush (fst (ops_run [] ops))).
 Proof. exact segv_includes_open_calls. Qed.
 Print Assumptions C04_segv_includes_open_calls.
 
